@@ -93,7 +93,7 @@ theorem goRs_spec (sel : Leaf → Bool) (tc core : Nat) (orc : Orc)
 end
 
 theorem dmOf_regEv (k : Nat) : dmOf (regEv k) = false := rfl
-theorem cpOf_regEv (k : Nat) : cpOf (regEv k) = false := rfl
+theorem cpOf_regEv (r : Bool) (k : Nat) : cpOf r (regEv k) = false := by cases r <;> rfl
 
 /-- a whole dispatcher call on a block -/
 theorem goB_run (sel : Leaf → Bool) (tc core : Nat) (orc : Orc)
@@ -136,16 +136,16 @@ theorem runBlocks_phase (sel : Leaf → Bool) (tc core : Nat) (orc : Orc)
       | br t => simp [ih]
       | cbr k t e => simp only [ih]; split <;> rfl
 
-theorem keep_keep (nb core : Nat) (l : Leaf) :
-    (keep dmOf (nb - 1) core l && keep cpOf 0 core l) = allowed nb core l := by
+theorem keep_keep (r : Bool) (nb core : Nat) (l : Leaf) :
+    (keep dmOf (nb - 1) core l && keep (cpOf r) 0 core l) = allowed r nb core l := by
   simp [keep, allowed]
 
 theorem findSome_prelude (nb : Nat) (a b : Bool) (rest : List Pre) :
     (prelude nb a b ++ rest).findSome? pinnedVal = rest.findSome? pinnedVal := by
   cases a <;> cases b <;> simp [prelude, List.findSome?_cons, pinnedVal]
 
-theorem coreOf_dispatch (fixed : Bool) (nb : Nat) (f : Func) (core : Nat) :
-    coreOf (dispatch fixed nb f) core = coreOf f core := by
+theorem coreOf_dispatch (r fixed : Bool) (nb : Nat) (f : Func) (core : Nat) :
+    coreOf (dispatch r fixed nb f) core = coreOf f core := by
   simp only [coreOf, dispatch, findSome_prelude]
 
 mutual
@@ -230,5 +230,154 @@ theorem mem_runBlocks_changed (sel : Leaf → Bool) (core : Nat) (orc : Orc) (l 
           split at h
           · exact ih t h
           · exact ih e h
+
+/-! ## structure of the output: the pass only adds guards, and which guards
+
+`stripB` erases every guard (its body stays in place); `labB gs` lists the leaves (and region ops) of a
+block in program order, each with the stack of guard cores around it (`gs` = the stack outside). -/
+
+def appB : Blk → Blk → Blk
+  | .nil, b => b
+  | .cons o r, b => .cons o (appB r b)
+
+mutual
+def stripO : Op → Blk
+  | .leaf l => .cons (.leaf l) .nil
+  | .guard _ b => stripB b
+  | .reg k kind rs => .cons (.reg k kind (stripRs rs)) .nil
+def stripB : Blk → Blk
+  | .nil => .nil
+  | .cons o r => appB (stripO o) (stripB r)
+def stripRs : Regs → Regs
+  | .nil => .nil
+  | .cons b rs => .cons (stripB b) (stripRs rs)
+end
+
+mutual
+def labO (gs : List Nat) : Op → List (Leaf × List Nat)
+  | .leaf l => [(l, gs)]
+  | .guard c b => labB (gs ++ [c]) b
+  | .reg k _ rs => (regEv k, gs) :: labRs gs rs
+def labB (gs : List Nat) : Blk → List (Leaf × List Nat)
+  | .nil => []
+  | .cons o r => labO gs o ++ labB gs r
+def labRs (gs : List Nat) : Regs → List (Leaf × List Nat)
+  | .nil => []
+  | .cons b rs => labB gs b ++ labRs gs rs
+end
+
+/-- one phase appends its core to the guard stack of exactly the selected leaves -/
+def relab (sel : Leaf → Bool) (tc : Nat) (x : Leaf × List Nat) : Leaf × List Nat :=
+  (x.1, if sel x.1 then x.2 ++ [tc] else x.2)
+
+theorem appB_nil : (b : Blk) → appB b .nil = b
+  | .nil => rfl
+  | .cons o r => by simp [appB, appB_nil r]
+
+theorem appB_assoc : (a b c : Blk) → appB (appB a b) c = appB a (appB b c)
+  | .nil, _, _ => rfl
+  | .cons o r, b, c => by simp [appB, appB_assoc r b c]
+
+theorem strip_ofLeaves (ls : List Leaf) : stripB (ofLeaves ls) = ofLeaves ls := by
+  induction ls with
+  | nil => rfl
+  | cons l ls ih => simp [ofLeaves, stripB, stripO, appB, ih]
+
+theorem ofLeaves_append (a b : List Leaf) : ofLeaves (a ++ b) = appB (ofLeaves a) (ofLeaves b) := by
+  induction a with
+  | nil => rfl
+  | cons l ls ih => simp [ofLeaves, appB, ih]
+
+theorem strip_flush (tc : Nat) (pend : List Leaf) (rest : Blk) :
+    stripB (flush tc pend rest) = appB (ofLeaves pend.reverse) (stripB rest) := by
+  cases pend with
+  | nil => simp [flush, ofLeaves, appB]
+  | cons l ls => simp only [flush, stripB, stripO, strip_ofLeaves]
+
+mutual
+theorem strip_goB (sel : Leaf → Bool) (tc : Nat) :
+    (b : Blk) → (pend : List Leaf) →
+    stripB (goB sel tc b pend) = appB (ofLeaves pend.reverse) (stripB b)
+  | .nil, pend => by simp [goB, strip_flush, stripB]
+  | .cons (.leaf l) r, pend => by
+      simp only [goB]
+      cases hi : l.inner <;> cases hs : sel l <;>
+        simp only [Bool.false_eq_true, if_false, if_true, strip_flush, stripB, stripO]
+      · rw [strip_goB sel tc r []]; simp [ofLeaves, appB]
+      · rw [strip_goB sel tc r (l :: pend)]
+        simp [ofLeaves_append, ofLeaves, appB, appB_assoc]
+      · rw [strip_goB sel tc r []]; simp [ofLeaves, appB]
+      · rw [strip_goB sel tc r [l]]; simp [ofLeaves, appB]
+  | .cons (.guard c b) r, pend => by
+      simp only [goB, strip_flush, stripB, stripO]
+      rw [strip_goB sel tc b [], strip_goB sel tc r []]
+      simp [ofLeaves, appB]
+  | .cons (.reg k kind rs) r, pend => by
+      simp only [goB, strip_flush, stripB, stripO]
+      rw [strip_goRs sel tc rs, strip_goB sel tc r []]
+      simp [ofLeaves, appB]
+theorem strip_goRs (sel : Leaf → Bool) (tc : Nat) :
+    (rs : Regs) → stripRs (goRs sel tc rs) = stripRs rs
+  | .nil => by simp [goRs]
+  | .cons b rs => by
+      simp only [goRs, stripRs]
+      rw [strip_goB sel tc b [], strip_goRs sel tc rs]
+      simp [ofLeaves, appB]
+end
+
+theorem lab_ofLeaves (gs : List Nat) (ls : List Leaf) : labB gs (ofLeaves ls) = ls.map (fun l => (l, gs)) := by
+  induction ls with
+  | nil => rfl
+  | cons l ls ih => simp [ofLeaves, labB, labO, ih]
+
+theorem lab_flush (gs : List Nat) (tc : Nat) (pend : List Leaf) (rest : Blk) :
+    labB gs (flush tc pend rest) = pend.reverse.map (fun l => (l, gs ++ [tc])) ++ labB gs rest := by
+  cases pend with
+  | nil => simp [flush]
+  | cons l ls => simp only [flush, labB, labO, lab_ofLeaves]
+
+mutual
+theorem lab_goB (sel : Leaf → Bool) (tc : Nat) (hsel : ∀ k, sel (regEv k) = false) :
+    (b : Blk) → (gs : List Nat) → (pend : List Leaf) → (∀ l ∈ pend, sel l = true) →
+    labB gs (goB sel tc b pend) =
+      pend.reverse.map (fun l => (l, gs ++ [tc])) ++ (labB gs b).map (relab sel tc)
+  | .nil, gs, pend, _ => by simp [goB, lab_flush, labB]
+  | .cons (.leaf l) r, gs, pend, h => by
+      simp only [goB]
+      cases hi : l.inner <;> cases hs : sel l <;>
+        simp only [Bool.false_eq_true, if_false, if_true, lab_flush, labB, labO]
+      · rw [lab_goB sel tc hsel r gs [] (by simp)]; simp [relab, hs]
+      · rw [lab_goB sel tc hsel r gs (l :: pend)
+              (by intro x hx; simp at hx; rcases hx with rfl | hx; exact hs; exact h x hx)]
+        simp [relab, hs]
+      · rw [lab_goB sel tc hsel r gs [] (by simp)]; simp [relab, hs]
+      · rw [lab_goB sel tc hsel r gs [l] (by simp [hs])]; simp [relab, hs]
+  | .cons (.guard c b) r, gs, pend, _ => by
+      simp only [goB, lab_flush, labB, labO]
+      rw [lab_goB sel tc hsel b (gs ++ [c]) [] (by simp), lab_goB sel tc hsel r gs [] (by simp)]
+      simp
+  | .cons (.reg k kind rs) r, gs, pend, _ => by
+      simp only [goB, lab_flush, labB, labO]
+      rw [lab_goRs sel tc hsel rs gs, lab_goB sel tc hsel r gs [] (by simp)]
+      simp [relab, hsel]
+theorem lab_goRs (sel : Leaf → Bool) (tc : Nat) (hsel : ∀ k, sel (regEv k) = false) :
+    (rs : Regs) → (gs : List Nat) →
+    labRs gs (goRs sel tc rs) = (labRs gs rs).map (relab sel tc)
+  | .nil, gs => by simp [goRs, labRs]
+  | .cons b rs, gs => by
+      simp only [goRs, labRs]
+      rw [lab_goB sel tc hsel b gs [] (by simp), lab_goRs sel tc hsel rs gs]
+      simp
+end
+
+theorem phaseBlocks_map (sel : Leaf → Bool) (tc : Nat) (bs : List BB) :
+    phaseBlocks true sel tc bs = bs.map (fun bb => ⟨goB sel tc bb.body [], bb.term⟩) := by
+  induction bs with
+  | nil => rfl
+  | cons bb rest ih => simp [phaseBlocks, ih]
+
+/-- the guards the two phases put around a leaf, outermost first -/
+def guardsFor (r : Bool) (nb : Nat) (l : Leaf) : List Nat :=
+  (if dmOf l then [nb - 1] else []) ++ (if cpOf r l then [0] else [])
 
 end SnaxVerif.Dispatch
